@@ -14,6 +14,8 @@ type c07Reader struct {
 	pos   int
 	free  int
 	reads int
+	// eofWithData: the read that delivers the last byte also reports io.EOF (allowed by io.Reader)
+	eofWithData bool
 }
 
 func (r *c07Reader) Read(p []byte) (int, error) {
@@ -40,6 +42,9 @@ func (r *c07Reader) Read(p []byte) (int, error) {
 	}
 	copy(p, r.data[r.pos:r.pos+k])
 	r.pos += k
+	if r.eofWithData && r.pos == len(r.data) {
+		return k, io.EOF
+	}
 	return k, nil
 }
 
@@ -67,7 +72,8 @@ func VerifC07RoundTrip() {
 	rt.Assert("write succeeds", err == nil && n == len(w.buf))
 	hdrLen := len(w.buf)
 	// header layout: varint(len(msg)) || msg, msg = 0x0a varint(len(id)) id
-	r := &c07Reader{data: append(append([]byte{}, w.buf...), payload...), free: 3}
+	r := &c07Reader{data: append(append([]byte{}, w.buf...), payload...), free: 3, eofWithData: rt.Choose("eofWithLastBytes", 2) == 1}
+	rt.KnownFinding("C07-header-final-read-with-eof", r.eofWithData && len(payload) == 0)
 	msg, err := readStreamEstablishHeader(r)
 	msgLen := hdrLen - 1
 	if msgLen > 127 {
@@ -105,7 +111,7 @@ func c07RefVarint(b []byte) (v uint64, n int) {
 // VerifC07Arbitrary: arbitrary stream bytes yield an error or a message; never a panic, never an
 // allocation above the configured limit, never a read beyond what the declared length permits.
 func VerifC07Arbitrary() {
-	n := 6
+	n := 5
 	if rt.Tier() > 0 {
 		n = 8
 	}
@@ -117,7 +123,7 @@ func VerifC07Arbitrary() {
 		v, k := c07RefVarint(data[:4])
 		rt.Assume(k == 0 || v <= 12 || v > streamEstablishMaxPacketSize)
 	}
-	r := &c07Reader{data: data, free: 2}
+	r := &c07Reader{data: data, free: 2, eofWithData: rt.Choose("eofWithLastBytes", 2) == 1}
 	msg, err := readStreamEstablishHeader(r)
 	if err != nil {
 		rt.Reach("rejected")
@@ -127,6 +133,7 @@ func VerifC07Arbitrary() {
 		v, k := c07RefVarint(data[:4])
 		rt.Assert("accepted => reference decoder agrees on the length prefix", k > 0 && v > 0)
 		rt.Assert("consumed = prefix + declared length, or the 4-byte first read", r.pos == k+int(v) || (k+int(v) < 4 && r.pos == 4))
+		rt.Assert("accepted => the stream really held the whole declared header", len(data) >= k+int(v))
 	}
 	rt.Reach("end")
 }
